@@ -2,42 +2,51 @@
   Golib.Wire.Steps — a meaning for the write steps that xlate/c05 transcribes from the Go `Write`
   methods (tie A of C05).
 
-  A step is one top-level statement of a `Write` method that puts bytes on the stream.  `run` gives a
-  step list its bytes relative to a semantics `Sem` that says what each Go field holds (`env`) and what
-  the opaque sections (if / for statements, helper calls) contribute.  The obligations
-  `…_writer_is_reference` in Golib/Props/C05Gen.lean state, for all field values, that the regenerated
-  step list of a pack means exactly the reference encoder: every scalar field is written with the
-  method, at the position, the reference has it.
+  A step is a statement of a Go function that puts bytes on a stream; if / for statements carry their
+  bodies (nested steps).  `run` gives a step list its bytes relative to a semantics `Sem`: what each
+  written Go expression holds (`env`), the truth of each condition (`cond`), the elements a loop visits
+  (`coll`: per element, the meaning of the expressions of the loop body), what a helper call
+  contributes (`call`).  The obligations `…_is_reference` in Golib/Props/C05Gen.lean state, for all field
+  values, that the regenerated step list of a function means exactly the reference encoder.
 -/
-import Golib.Wire.Reference
+import Golib.Wire.Counter
 
 namespace Wire
 open Prim
 
 inductive Step where
-  | w (method field : String)      -- stream.M(this.F), stream.M(T(this.F)), pkg.M(stream, this.F)
-  | lit (method : String) (v : Nat) -- stream.M(<literal>)
-  | hdr                             -- this.AbstractPack.Write(stream)
-  | arr8 (field : String)           -- this.writeShortArray(stream, this.F)
-  | sec (name : String)             -- if / for statement or helper call: opaque section
-  | blobWrap                        -- out.WriteBlob(stream.ToByteArray())
-  | other (text : String)           -- anything else that writes
-deriving DecidableEq, Repr
+  | w (method arg : String)          -- stream.M(arg), pkg.M(stream, arg), arg.ToBytes(stream): main stream
+  | side (method arg : String)       -- the same on a side buffer (contributes nothing to the main stream)
+  | lit (method : String) (v : Nat)  -- stream.M(<literal>)
+  | hdr                              -- this.AbstractPack.Write(stream)
+  | arr8 (arg : String)              -- this.writeShortArray(stream, arg)
+  | call (name : String)             -- this.name(stream)
+  | put (key value : String)         -- this.Attr.Put(key, value): no bytes, changes the attribute map
+  | ite (cond : String) (t e : List Step)
+  | loop (name : String) (body : List Step)
+  | wrapHeader (args : List String)  -- stream.WriteHeader(args): wraps what the stream holds
+  | blobWrap                         -- out.WriteBlob(side.ToByteArray())
+  | other (text : String)
+deriving Repr
 
-/-- what a Go field holds -/
+/-- what a written Go expression holds -/
 inductive FV where
   | i (v : Int)
   | n (v : Nat)
-  | b (bs : Bytes)
+  | b (bs : Bytes)                         -- a string / byte slice written with its own length prefix
+  | raw (bs : Bytes)                       -- bytes copied as they are
   | is (xs : List Int)
   | m (kvs : List (Bytes × Value))
+  | im (kvs : List (Int × Value))
+  | ii (kvs : List (Int × Int))
+  | v (x : Value)
   | none
 
-/-- bytes that no encoder produces at a field position: an unknown method / field / section makes the
-    obligation fail instead of being skipped -/
+/-- bytes that no encoder produces at a field position: an unknown method / expression / section makes
+    the obligation fail instead of being skipped -/
 def poison : Bytes := [999999]
 
-/-- the DataOutputX method applied to a field value -/
+/-- the stream method applied to a value -/
 def wr (method : String) (x : FV) : Bytes :=
   match method, x with
   | "WriteDecimal", .i v => encDecimal v
@@ -48,8 +57,14 @@ def wr (method : String) (x : FV) : Bytes :=
   | "WriteByte", .n b => [b % 256]
   | "WriteText", .b s => encText s
   | "WriteBlob", .b s => encBlob s
+  | "WriteBytes", .raw s => s
+  | "Write", .raw s => s                   -- pack.Write(stream): the pack's own bytes
+  | "WriteIntBytes", .raw s => encI 4 s.length ++ s
   | "WriteValue", .m kvs => encMap kvs
   | "WriteMapValue", .m kvs => encMap kvs
+  | "WriteValue", .im kvs => encIntMap kvs
+  | "WriteValue", .v x => Value.encV x
+  | "ToBytes", .ii kvs => encCounted encIntIntEntry kvs
   | _, _ => poison
 
 def wrLit (method : String) (v : Nat) : Bytes :=
@@ -57,31 +72,60 @@ def wrLit (method : String) (v : Nat) : Bytes :=
   | "WriteByte" => [v % 256]
   | "WriteBool" => [v % 256]
   | "WriteDecimal" => encDecimal v
+  | "WriteInt" => encI 4 v
   | _ => poison
 
 structure Sem where
   hdr : Bytes
   env : String → FV
-  sec : String → Bytes
-  other : String → Bytes
+  cond : String → Bool
+  coll : String → List (String → FV)
+  call : String → Bytes
 
+/-- inside a loop body the expressions of the element come first -/
+def Sem.withElem (S : Sem) (el : String → FV) : Sem :=
+  { S with env := fun a => match el a with | .none => S.env a | x => x }
+
+mutual
 def interp (S : Sem) : Step → Bytes
-  | .w m f => wr m (S.env f)
+  | .w m a => wr m (S.env a)
+  | .side _ _ => []
   | .lit m v => wrLit m v
   | .hdr => S.hdr
-  | .arr8 f => match S.env f with | .is xs => encShorts8 xs | _ => poison
-  | .sec n => S.sec n
-  | .other t => S.other t
+  | .arr8 a => match S.env a with | .is xs => encShorts8 xs | _ => poison
+  | .call n => S.call n
+  | .put _ _ => []
+  | .ite c t e => if S.cond c then run S t else run S e
+  | .loop n body => (S.coll n).flatMap (fun el => run (S.withElem el) body)
+  | .wrapHeader _ => poison
   | .blobWrap => poison
+  | .other _ => poison
+def run (S : Sem) : List Step → Bytes
+  | [] => []
+  | s :: rest => interp S s ++ run S rest
+end
 
-def run (S : Sem) (steps : List Step) : Bytes := (steps.map (interp S)).flatten
+theorem run_append (S : Sem) (a b : List Step) : run S (a ++ b) = run S a ++ run S b := by
+  induction a with
+  | nil => simp [run]
+  | cons s a ih => simp [run, ih]
 
-/-- a body built in a side stream and emitted as one blob after the header:
-    `hdr :: inner ++ [blobWrap]` -/
-def runWrapped (S : Sem) (steps : List Step) : Bytes :=
-  match steps with
-  | .hdr :: rest =>
-    if rest.getLast? = some .blobWrap then S.hdr ++ encBlob (run S rest.dropLast) else poison
-  | _ => poison
+/-- the `Attr.Put` statements of a step list, in execution order -/
+def putsOf (S : Sem) : List Step → List (String × String)
+  | [] => []
+  | .put k v :: rest => (k, v) :: putsOf S rest
+  | .ite c [.put k v] [] :: rest => (if S.cond c then [(k, v)] else []) ++ putsOf S rest
+  | .ite c [.put k v] [.put k' v'] :: rest => (if S.cond c then (k, v) else (k', v')) :: putsOf S rest
+  | _ :: rest => putsOf S rest
+
+/-- `stream.WriteHeader(src, ver, pcode, hash)`: the stream's content `t` becomes
+    src, ver, be8 pcode, be8 hash, be4 |t|, t -/
+def wrapHeader (src ver : Nat) (pcode hash : Int) (t : Bytes) : Bytes :=
+  [src % 256] ++ ([ver % 256] ++ (encI 8 pcode ++ (encI 8 hash ++ (encI 4 t.length ++ t))))
+
+theorem flatMap_eq_encMany {α : Type} (f : α → Bytes) (xs : List α) : xs.flatMap f = encMany f xs := by
+  induction xs with
+  | nil => rfl
+  | cons x xs ih => simp [List.flatMap_cons, encMany, ih]
 
 end Wire
